@@ -18,7 +18,7 @@ open Cppcms Cppcms.C03
 def flushLetter : Flush → String
   | .noFlush => "n" | .syncFlush => "s" | .finish => "e"
 
-def ztrace (r : Resp) : String :=
+def ztrace (r : Resp stubDeflater) : String :=
   match r.gz with
   | none => "-"
   | some g => if g.fed.isEmpty then "-" else String.join (g.fed.map fun (i, f) => s!"{flushLetter f}{i.length}.")
@@ -113,18 +113,19 @@ def step (cfg : Config) (cache : PageCache) (line : String) : PageCache × Strin
     match parseCase w with
     | none => (cache, "bad-op")
     | some cs =>
-      let x := runCase cfg cache cs
+      let res := runCase cfg cache cs
+      let x := res.run
+      let w := res.wire
       let real := cs.gz && !cs.zstub && x.resp.gz.isSome
-      let hitZ := false
-      let wire := if real || hitZ then "*" else toHex x.resp.wire.conn.wire
+      let wire := if real then "*" else toHex w.conn.wire
       let cch := match x.cacheCopy with
         | none => "none"
         | some c => if real then "*" else toHex c
       -- model-internal anomalies (none is expected with the schedules the harness can inject): they show up as a diff
-      let note := (if x.resp.wire.violated then "violated" else "") ++
-        (if !x.resp.wire.conn.backlog.isEmpty then "undrained" else "") ++
-        (if x.resp.wire.conn.broken then "broken" else "") ++
-        (if x.resp.wire.conn.wire ++ x.resp.wire.conn.backlog != x.resp.wire.conn.handed then "invariant" else "")
+      let note := (if w.violated then "violated" else "") ++
+        (if !w.conn.backlog.isEmpty then "undrained" else "") ++
+        (if w.conn.broken then "broken" else "") ++
+        (if !w.violated && w.conn.wire != w.outs then "invariant" else "")
       (x.cache, s!"{wire} {cch} {ztrace x.resp} {if note.isEmpty then "-" else note}")
 
 def main (args : List String) : IO Unit := do
